@@ -147,6 +147,25 @@ def r2_seal_reaches_hash_inputs(chk: Check):
     need = {"x.__xpm__.pre_tasks": "pre-tasks", "x.__xpm__.init_tasks": "init tasks", "x.__xpm__.task": "the producing task"}
     for a, what in need.items():
         chk.require(a in args, chk.fkey(f, f"descends into {what}"), f"the configuration walk (used for sealing) does not descend into {what}, which the identifier depends on: it would stay editable after submission", loc)
+    # ... under no other condition than "there is something to descend into" (polarity included)
+    common = {("isinstance(x, Config)", True), ("id(x) in self.visited", False)}
+    allowed = {"x.__xpm__.pre_tasks": {("x.__xpm__.pre_tasks", True)}, "x.__xpm__.init_tasks": {("x.__xpm__.init_tasks", True)},
+               "x.__xpm__.task": {("x.__xpm__.task is None", False), ("self.recurse_task", True), ("x.__xpm__.task is x", False)}}
+    for n, c in recs:
+        a = rd.canon(c.args[0], n)
+        raw = {(rd.canon(t.ast, t), pol) for t, pol in g.guards(n) if t.kind == "test"}
+        if ("isinstance(x, Config)", True) not in raw:
+            continue  # list / dict branches: decided by the loops below
+        gs = raw - common
+        # the pre-processing verdict: `flag` must be true to go on
+        gs = {(t_, pol) for t_, pol in gs if not (pol is True and "preprocess" in t_) and not (t_ == "flag" and pol is True)}
+        if a in allowed:
+            ok = gs <= allowed[a] and (a != "x.__xpm__.task" or gs == allowed[a])
+            chk.require(ok, chk.fkey(f, f"descent into {need[a]} is unconditional"), f"the walk descends into {need[a]} under {sorted(gs)}; expected only {sorted(allowed[a])}: "
+                        "part of what the identifier depends on would not be sealed (or validated, or instantiated)", loc)
+        elif isinstance(c.args[0], ast.Name) and gs:
+            okv = gs <= {(f"{c.args[0].id} is None", False)}
+            chk.require(okv, chk.fkey(f, f"descent into values is unconditional [{a}]"), f"the walk descends into a value under {sorted(gs)}; expected at most `is not None`", loc)
     # argument values, list elements, dict values
     loops = {src(n.ast.iter): n for n in g.live if n.kind == "for"}
     for its, what in ((("info.xpmvalues()", "x.__xpm__.xpmvalues()"), "argument values"), (("enumerate(x)",), "list elements"), (("x.items()",), "dict values")):
